@@ -106,6 +106,16 @@ def _run(cmd, cwd=None, env=None, what="build"):
     return p.stdout
 
 
+def _forget_fingerprints(target, profile_dirs=("release",)):
+    """Force cargo to rebuild the gufo_snmp crate itself (not its dependencies): a new tree hash
+    means the sources changed, and cargo's mtime-based freshness check must not be able to
+    disagree (e.g. files restored with old timestamps)."""
+    import glob
+    for pd in profile_dirs:
+        for f in glob.glob(os.path.join(target, pd, ".fingerprint", "gufo_snmp-*")):
+            shutil.rmtree(f, ignore_errors=True)
+
+
 def _evict(parent, keep):
     """Keep only the `keep` most recently used sub-directories of parent."""
     try:
@@ -133,9 +143,13 @@ def ensure_ext():
     with _Lock("ext"):
         if os.path.exists(ok):
             return pkg
-        target = os.path.join(BUILD, "ext-target")
+        # one target dir per repo *path*: cargo keys fingerprints by package path but uplifts every
+        # package's cdylib to the same target/release/libgufo_snmp.so, so sharing a target dir between
+        # two checkouts can hand back the other checkout's library for a "fresh" build
+        target = os.path.join(BUILD, "ext-target-" + hashlib.sha256(REPO.encode()).hexdigest()[:8])
         env = _env()
         env["CARGO_TARGET_DIR"] = target
+        _forget_fingerprints(target)
         _run(["cargo", "build", "--release", "--offline", "--manifest-path", os.path.join(REPO, "Cargo.toml")],
              env=env, what="extension (release)")
         so = os.path.join(target, "release", "libgufo_snmp.so")
@@ -254,6 +268,7 @@ def ensure_mirror():
             d = _gen_mirror()
             env = _env()
             env["CARGO_TARGET_DIR"] = os.path.join(BUILD, "mirror-target")
+            _forget_fingerprints(env["CARGO_TARGET_DIR"])
             _run(["cargo", "build", "--release", "--offline", "--bins"], cwd=d, env=env, what="mirror crate (E2)")
             tmp = bdir + ".tmp%d" % os.getpid()
             shutil.rmtree(tmp, ignore_errors=True)
@@ -313,6 +328,7 @@ gufo_snmp = { path = ".." }
             _write_if_changed(os.path.join(fd, ".cargo", "config.toml"), "[net]\noffline = true\n")
             env = _env()
             env["CARGO_TARGET_DIR"] = os.path.join(BUILD, "fuzz-target")
+            _forget_fingerprints(env["CARGO_TARGET_DIR"], ("x86_64-unknown-linux-gnu/release",))
             _run(["cargo", "+nightly", "fuzz", "build", "-O", "--fuzz-dir", fd], cwd=d, env=env, what="fuzz targets (E3)")
             tmp = bdir + ".tmp%d" % os.getpid()
             shutil.rmtree(tmp, ignore_errors=True)
